@@ -147,7 +147,7 @@ pub fn pick(rng: &mut Rng) -> (String, String, Vec<String>) {
     let args: Vec<String> = (0..k)
         .map(|i| {
             // the first argument usually drives recursion depth: keep it small
-            let v = if i == 0 { rng.range(0, 11) } else if rng.pct(15) { rng.range(-1_000_000, 1_000_000) } else { rng.range(-9, 30) };
+            let v = if i == 0 { rng.range(0, if name.starts_with("tree") { 8 } else { 11 }) } else if rng.pct(15) { rng.range(-1_000_000, 1_000_000) } else { rng.range(-9, 30) };
             v.to_string()
         })
         .collect();
